@@ -100,3 +100,64 @@ claim("C08",
       "of the model's candidate fault points for that file." + COMMON_NOTE,
       "Coq proof (events of the insert pass) + fault enumeration on the real binary",
       "DESIGN.md section 6, C08")
+
+
+claim("C18",
+      "Theorems (Coq): C18_both_signals_registered -- SIGINT (2) and SIGTERM (15) are each in the list of first "
+      "arguments of signal_hook::flag::register translated from main.rs on every run (an OR of the two would be 15 "
+      "only); C18_interrupted_check_never_passes, C18_interrupted_edit, C18_interrupted_first_pass -- for every tree "
+      "and every poll index at which the stop flag is first seen, a check never exits 0 and an edit exits 0 only if "
+      "its insert pass was never needed; with the stop point part of the oracle, C07 (files original or complete), "
+      "C02_lock_covers_ids (lock above every ID written) and C08_no_temp_left cover interrupted runs. Tie: both "
+      "signals raised before every tracked operation of real check and edit runs; how the process ended, exit "
+      "status, files, lock compared with the model and judged directly.",
+      "Signals are raised synchronously at libc-call boundaries by the interposer; delivery at arbitrary "
+      "instructions, and signal-hook's handler, are outside the model." + COMMON_NOTE,
+      "Coq proof over translated signal registration + stop-point oracle; signal injection at every operation of the real binary",
+      "DESIGN.md section 6, C18")
+
+
+claim("C05",
+      "Theorems (Coq): C05_missing_predicates_agree (the three separately written 'lacks a reference' tests of the "
+      "three processors coincide on every entry); C05_check_verdict (for every tree with an in-scope file, an "
+      "uninterrupted non-panicking check reports exactly, file by file and in order, the line/column of the entries "
+      "lacking a reference, totals their number, and exits non-zero iff there is one); C05_edit_count_is_exact "
+      "(the number an edit run prints is the number of IDs it wrote). The same filter selects what check reports "
+      "and what edit rewrites (C03/C08). Tie: check and edit runs of the real binary on the same trees, the "
+      "reported line/column converted to byte offsets independently (characters, CRLF, lone CR, tabs, multi-byte) "
+      "and compared with the insertion offsets of the edit diff; both runs compared with the model.",
+      "Line/column arithmetic is pest's (modelled by Text.line_col, tied by correspondence). With a failed rename the "
+      "printed count includes the failed file's references (pinned by the unit tests; the run exits non-zero)."
+      + COMMON_NOTE,
+      "Coq proof (count_map/pass_count specification) + check-vs-edit differential on the real binary",
+      "DESIGN.md section 6, C05")
+
+
+claim("C16",
+      "Theorems (Coq) on the driver model with the serde defaults translated from context.rs on every run: "
+      "C16_defaults (use_cache defaults to true, structured to false, extensions to [rs], and the three fields carry "
+      "those default functions); C16_no_cache_no_lock (use_cache false: the run is independent of the lock and "
+      "performs no lock operation); C16_corrupt_lock_ignored (an unparsable lock behaves like an absent one: first "
+      "pass over the code); C16_next_run_starts_from_lock; C16_nothing_to_scan (discovery error or no in-scope file: "
+      "non-zero exit and no effect, both modes). Tie: the full product of present/omitted/explicit values x lock "
+      "classes x modes x trees through the real binary compared with the model and judged directly, failing "
+      "configurations, and the defaults read back through the hook library.",
+      "YAML parsing is serde_yaml's (a configuration is its parsed field set; lock classes are fixed by construction "
+      "of the templates)." + COMMON_NOTE,
+      "Coq proof over translated defaults + configuration product on the real binary",
+      "DESIGN.md section 6, C16")
+
+
+claim("C02",
+      "Theorem C02_partial_history_invariant (Coq, induction over the history): over ANY finite history of developer "
+      "edits (arbitrary new trees, lock kept) and runs -- each edit run with ANY injected I/O failure on any file and "
+      "ANY stop point -- from a state where the lock is absent or ahead of everything written, no ID is ever written "
+      "twice and the lock stays above every ID written, provided each edit run uses the lock, its lock write succeeds "
+      "and it ends by itself. C02_lock_covers_ids is the one-run statement. The remaining cases of the property as "
+      "written (kill, failing lock write) are FALSE of the faithful model: C02_lock_window_refuted exhibits the "
+      "witness (known finding F14, replayed on the real binary on every run and reported as KNOWN-FINDING). Tie: "
+      "random histories on the real binary with the ghost map kept by the harness; runs compared with the model.",
+      "Partial: holds for runs that end by themselves with a successful lock write; kill / lock-write failure is the "
+      "recorded finding F14 (see KNOWN_FINDINGS.txt)." + COMMON_NOTE,
+      "Coq proof (history invariant by induction) + refutation witness + random histories on the real binary",
+      "DESIGN.md section 6, C02")
